@@ -32,7 +32,30 @@ def qr_cases(draw, tier):
     elif shape_kind == "square":
         n = m
     kind = draw(st.sampled_from(["generic", "generic", "int", "pure_imag", "zero_real_diag", "product_rank", "zero_cols",
-                                 "dup_cols", "spectrum", "zero", "scaled", "scaled", "nearly_real", "unit_entries"]))
+                                 "dup_cols", "spectrum", "zero", "scaled", "scaled", "nearly_real", "unit_entries",
+                                 "trapezoidal", "trapezoidal", "nearly_trapezoidal", "nearly_trapezoidal", "leading_block",
+                                 "graded_cols"]))
+    if kind in ("trapezoidal", "nearly_trapezoidal", "leading_block"):
+        # columns that are exactly (or nearly: relative 1e-3 .. 1e-9) zero below a quaternion pivot: already reduced
+        # inputs, where an elimination step has nothing (or almost nothing) to annihilate
+        A = draw(gen.qarray(m, n, draw(st.sampled_from(["generic", "int", "units"]))))[0].copy()
+        for i in range(min(m, n)):
+            if not A[i, i].any():
+                A[i, i] = draw(gen.unit_q(exact=True))
+        if kind == "leading_block":
+            k0 = draw(st.integers(1, min(m, n)))
+            A[k0:, :k0] = 0.0                           # the leading k0 columns are supported on the first k0 rows
+        else:
+            low = np.tril(np.ones((m, n)), -1)[..., None]
+            if kind == "trapezoidal":
+                A = A * (1.0 - low)
+            else:
+                A = A * (1.0 - low) + A * low * draw(st.sampled_from([1e-3, 1e-5, 1e-6, 1e-7, 1e-8, 1e-9]))
+        return {"A": np.ascontiguousarray(A), "kind": kind}
+    if kind == "graded_cols":
+        A = draw(gen.qarray(m, n, "generic"))[0]
+        e = draw(st.lists(st.integers(-6, 6), min_size=n, max_size=n))
+        return {"A": np.ascontiguousarray(A * (10.0 ** np.array(e, dtype=float))[None, :, None]), "kind": kind}
     if kind in ("generic", "int", "pure_imag"):
         A = draw(gen.qarray(m, n, kind))[0]
     elif kind == "zero_real_diag":
